@@ -19,7 +19,7 @@ TRUSTED = [
 ]
 ASSUMPTIONS = [
     'objects are unique integers, keys are strings; style-consistent operations as defined by Op.ok',
-    'slices, pop(key, default), update() with malformed pairs, dict-declared Selector with check_on_set=False are outside the model',
+    'slices, pop(key, default), update() with malformed pairs are outside the model',
 ]
 RULE = ('directed prefix (every mutator in both styles, error paths) + all operation sequences of length <=2 '
         '(<=3 in thorough) over a fixed alphabet for list- and dict-declared Selector/ListSelector + random '
@@ -147,6 +147,7 @@ def _decls():
     yield 'Selector', {'objs': [0, 1, 2], 'names': [['a', 0], ['', 1], ['c', 2]], 'check_on_set': True}
     yield 'Selector', {'objs': [0, 1], 'names': None, 'check_on_set': True}
     yield 'Selector', {'objs': [1, 2], 'names': None, 'check_on_set': False}
+    yield 'Selector', {'objs': [1, 2], 'names': [['a', 1], ['b', 2]], 'check_on_set': False}
 
 
 def _alphabet(style, pos):
@@ -195,7 +196,7 @@ def _random_case(rng):
     objs = rng.sample(range(0, 9), n)          # 0 = None
     keys = rng.sample(['a', 'b', 'c', 'd', 'e', 'f', 'g', ''], n)
     decl = {'objs': objs, 'names': [[k, v] for k, v in zip(keys, objs)] if style == 'dict' else None,
-            'check_on_set': True if style == 'dict' else rng.random() < 0.8}
+            'check_on_set': rng.random() < 0.8}
     # generator-side shadow of the current contents, only used to draw mostly valid ops
     cur, names = list(objs), (dict(zip(keys, objs)) if style == 'dict' else {})
     fresh = itertools.count(20)
@@ -324,4 +325,8 @@ def shrink(case):
 
 
 def classify(case, impl, fail):
+    why = str(fail.get('why', ''))
+    if fail.get('kind') == 'counterexample' and not case['decl']['check_on_set'] \
+            and 'Op.assign' in why and 'objects/names inconsistent' in why:
+        return 'nonchecking-assign-leaves-object-unnamed'
     return None
